@@ -185,7 +185,7 @@ func GenC12(seed uint64) *Plan {
 			addCol("log_addr", "bytea")
 		}
 	}
-	for _, fn := range []string{"tx_to", "tx_signer", "tx_value", "tx_nonce", "block_num", "tx_idx"} {
+	for _, fn := range []string{"tx_to", "tx_signer", "tx_value", "tx_nonce", "block_num", "tx_idx", "tx_status", "tx_gas_used"} {
 		if !g.chance(25) {
 			continue
 		}
@@ -202,6 +202,10 @@ func GenC12(seed uint64) *Plan {
 				f.Filter = &model.Filter{Op: g.pick([]string{"gt", "lt", "ne", "eq"}), Arg: []string{fmt.Sprint(g.between(2, sp.InitLen))}}
 			case "tx_idx":
 				f.Filter = &model.Filter{Op: g.pick([]string{"gt", "lt", "ne", "eq"}), Arg: []string{fmt.Sprint(g.between(0, 2))}}
+			default:
+				// receipt fields carry no filter here: they only change the data
+				// plan (logs then come with the receipts, unrestricted by address)
+				nflt--
 			}
 			nflt++
 		}
